@@ -3,12 +3,15 @@
 (* vector per tree with at least two instances of the repeated subexpression *)
 (* for replay through the real compilers (C02).                              *)
 EXTENDS CseGuards, Json
-Show(o) == IF o[1] = "fail" THEN "fail" ELSE IF o[1] = "E" THEN "E" ELSE IF o[2] = 1 THEN "K1" ELSE "K2"
+Show(o) == o[1]
 Combos == <<<<FALSE, FALSE, FALSE>>, <<FALSE, TRUE, FALSE>>, <<TRUE, FALSE, FALSE>>, <<TRUE, TRUE, FALSE>>,
             <<FALSE, FALSE, TRUE>>, <<FALSE, TRUE, TRUE>>, <<TRUE, FALSE, TRUE>>, <<TRUE, TRUE, TRUE>>>>
 G(c) == [i \in Guards |-> IF i = 1 THEN c[1] ELSE c[2]]
 Rows(t) == [k \in 1..Len(Combos) |-> [g1 |-> Combos[k][1], g2 |-> Combos[k][2], efail |-> Combos[k][3],
                                        out |-> Show(Eval(t, G(Combos[k]), Combos[k][3]))]]
-Emit == (emitted /\ Cardinality(Instances(tree)) >= 2) =>
+\* trees on which an unsound lift would be visible: two or more instances, and the source returns a value on some row
+\* on which the subexpression itself fails
+Interesting(t) == Cardinality(Instances(t)) >= 2 /\ \E k \in 1..Len(Combos) : Combos[k][3] /\ Eval(t, G(Combos[k]), TRUE) # Fail
+Emit == (emitted /\ (Interesting(tree) \/ Saturated(tree))) =>
            PrintT(<<"V", ToJson([tree |-> tree, saturated |-> Saturated(tree), rows |-> Rows(tree)])>>)
 =============================================================================
